@@ -61,7 +61,7 @@ fn codegen_meta(property: &'static str, arch: &str) -> CheckMeta {
         property,
         level: "model_checking",
         rule: format!(
-            "bounded-exhaustive enumeration of linear AxCut template programs (prelude of k variables x statement under test x observer epilogue) over the families LIT, OP, IFC, LET/SWITCH, heap mixes, jump tables, CREATE/INVOKE, PRINT, entry/CALL/EXIT, loops; each is compiled by the real {arch} code generator, the printed text is executed on an emulator from its entry point and compared with the positional AxCut reference machine (print sequence + result). A case is distinct by the hash of its printed program and arguments; every case executes real generated code, so all are non-trivial."
+            "bounded-exhaustive enumeration of linear AxCut template programs (prelude of k variables x statement under test x observer epilogue) over the families LIT, OP, IFC, LET/SWITCH, heap mixes, jump tables, CREATE/INVOKE, PRINT, entry/CALL/EXIT, loops; each is compiled by the real {arch} code generator, the printed text is executed on an emulator from its entry point and compared with the positional AxCut reference machine (print sequence + result). The kinds of the surrounding variables follow the patterns ints / alt / objs / clos and the rotated patterns altrot / closrot (every position holds an integer in one run and a block pointer in another). The same is done for real pipeline outputs: linearized Fun family programs, the complete space of small non-linear statements after the real linearizer, and the hand-built Core programs of G-CORE after focusing, shrinking and linearization — each also in a padded variant with 5 or 12 extra integers live from entry to exit (generate/axpad.rs), which moves the program's own variables across the register/spill boundaries. A case is distinct by the hash of its printed program and arguments; every case executes real generated code, so all are non-trivial."
         ),
         assumptions: vec![
             format!("the {arch} emulator models the instruction subset the backend prints (validated natively for x86-64 by C01)"),
@@ -300,7 +300,7 @@ pub fn run_check(id: &str, tier: Tier) -> i32 {
                 "C03" => CheckMeta {
                     property: "C03",
                     level: "model_checking",
-                    rule: format!("every translation output of {fams}, plus FUN-EFFECT with prints/goto/exit in argument positions) is run on R-CORE before and after the real Prog::focus(); full print sequence and result must agree; after focusing, binders along every path are checked to be non-zero, pairwise distinct and <= max_id.{}", format!(" G-CORE: additionally every hand-built Core program of the exhaustive enumeration `generate/corefam.rs` (statements of up to N nodes over cut at i64 / a pair type / a two-constructor data type / a codata type, print, zero test, exit, call of a helper that rebinds its own parameters, mu, mutilde, case, cocase, constructor and destructor with arbitrary non-value arguments; binders drawn from two variable and two covariable names, so every kind of shadowing, also at a different type, occurs; three alphabets (all forms; int+pair; int+two-constructor type, one node larger), N = {}), each confirmed well-typed by TC-CORE first.", "12/14 quick, 14/16 thorough")),
+                    rule: format!("every translation output of {fams}, plus FUN-EFFECT with prints/goto/exit in argument positions) is run on R-CORE before and after the real Prog::focus(); full print sequence and result must agree; after focusing, binders along every path are checked to be non-zero, pairwise distinct and <= max_id.{}", format!(" G-CORE: additionally every hand-built Core program of the exhaustive enumeration `generate/corefam.rs` (statements of up to N nodes over cut at i64 / a pair type / a two-constructor data type / a codata type, print, zero test, exit, call of a helper that rebinds its own parameters, mu, mutilde, case, cocase, constructor and destructor with arbitrary non-value arguments; binders drawn from two variable and two covariable names, so every kind of shadowing, also at a different type, occurs; three alphabets (all forms; int+pair; int+two-constructor type, one node larger), N = {}), each confirmed well-typed by TC-CORE first; every program in which the second name of a pool is bound at most once also runs in a partly unique variant (that name written with the first one's base name and a non-zero id, so that identifiers (x,0) and (x,7) are in scope together).", "12/14 quick, 14/16 thorough")),
                     assumptions: vec!["R-CORE's dynamic focusing (left-to-right, once for integers/data, by name for codata, consumer-first for codata cuts) is the reading of the property's evaluation order".into()],
                 },
                 "C04" => CheckMeta {
@@ -312,7 +312,7 @@ pub fn run_check(id: &str, tier: Tier) -> i32 {
                 "C05" => CheckMeta {
                     property: "C05",
                     level: "model_checking",
-                    rule: format!("(a) the complete space of non-linear AxCut statements over contexts of <= 3 (quick) / <= 4 (thorough) variables: every kind assignment x statement kind (literal, print, op, let, ifc, switch, create with every captured subset, call with every argument pair incl. repetition) x every subset of variables used afterwards; (b) every shrunk program of {fams}). Each is linearized by the real linearizer; TC-AX checks the ordered-linear judgment of DESIGN Appendix A on every statement of every path; the positional AxCut machine on the linearized program must agree with the by-name machine on the original. (c) the shrunk programs of the G-CORE enumeration (hand-built Core programs with every kind of shadowing, sizes 11/13 quick, 13/15 thorough; see C03)."),
+                    rule: format!("(a) the complete space of non-linear AxCut statements over contexts of <= 3 (quick) / <= 4 (thorough) variables: every kind assignment x statement kind (literal, print, op, let, ifc, switch, create with every captured subset, call with every argument pair incl. repetition) x every subset of variables used afterwards; (b) every shrunk program of {fams}). Each is linearized by the real linearizer; TC-AX checks the ordered-linear judgment of DESIGN Appendix A on every statement of every path; the positional AxCut machine on the linearized program must agree with the by-name machine on the original. Every statement of (a) is linearized under three id regimes: as generated (max_id far above every id), with max_id equal to the highest id in use, and with all variable ids mirrored and max_id tight. (c) the shrunk programs of the G-CORE enumeration (hand-built Core programs with every kind of shadowing, sizes 11/13 quick, 13/15 thorough; see C03)."),
                     assumptions: vec!["Appendix A judgment read off the backends' expectations".into()],
                 },
                 _ => CheckMeta {
@@ -334,7 +334,7 @@ pub fn run_check(id: &str, tier: Tier) -> i32 {
             let meta = CheckMeta {
                 property: "C11",
                 level: "model_checking",
-                rule: "complete enumeration of substitution configurations: every function from a new window of m variables to an old window of n variables (n, m <= 4 quick / <= 5 thorough), every integer/object kind assignment of the old window (objects once as data of chirality prd and once as closures / continuations of chirality cns), every window offset across the register/spill boundary (x86-64 0..8, AArch64 8..16, RV64 0..9 identity variables in front), with and without all objects aliasing one block, on all three backends. Beyond the complete space: windows of 6, 7, 9 (thorough 6..12) variables with every rotation, reversal, adjacent swaps, a chain ending in a fan-out, total fan-out, two disjoint cycles and the swap of the two ends, for all-integer / all-object / alternating kinds. Each case compiles one real Substitute statement, runs it from a pre-state with distinct sentinels and checks the post-state: simultaneous assignment, reference counts (+copies-1), each dropped last reference released exactly once onto the deferred list, and nothing else changed (heap words, heap register, stack pointer, stack above the spill area). Distinct by configuration; all configurations execute generated code.".into(),
+                rule: "complete enumeration of substitution configurations: every function from a new window of m variables to an old window of n variables (n, m <= 4 quick / <= 5 thorough), every integer/object kind assignment of the old window (objects once as data of chirality prd and once as closures / continuations of chirality cns), every window offset across the register/spill boundary (x86-64 0..8, AArch64 8..16, RV64 0..9 identity variables in front), with and without all objects aliasing one block, on all three backends. Beyond the complete space: windows of 6, 7, 9 (thorough 6..12) variables with every rotation, reversal, adjacent swaps, a chain ending in a fan-out, total fan-out, two disjoint cycles and the swap of the two ends, for all-integer / all-object / alternating kinds. Each case compiles one real Substitute statement, runs it from a pre-state with distinct sentinels and checks the post-state: simultaneous assignment, reference counts (+copies-1), each dropped last reference released exactly once onto the deferred list, and nothing else changed (heap words, heap register, stack pointer, stack above the spill area). Every configuration runs under two namings of the new variables: the first use of a source keeps the source's identifier and copies are fresh (what the linearizer writes), and positional (the new variable at position j takes the identifier of the old variable at position j, e.g. (a := b)(b := a)). Distinct by configuration; all configurations execute generated code.".into(),
                 assumptions: vec!["emulators as C06-C08".into(), "pre-state object counts 0/1/2 by block index; aliased block count = holders - 1 + (holders mod 2)".into()],
             };
             finish(&meta, tier, started, rep, Map::new())
@@ -364,7 +364,7 @@ pub fn run_check(id: &str, tier: Tier) -> i32 {
             let meta = CheckMeta {
                 property: "C16",
                 level: "exploration",
-                rule: "G-TEXT: every term form (literals incl. negative, variable, 5 operators, 6 comparisons in two-operand / zero-right / zero-left form, let, call, constructor, case with 0..3 clauses, destructor with/without type arguments and arguments, cocase with 0..2 clauses, label, goto, exit, print, println, parentheses) nested in every operand slot of every term form (depth 2 quick, depth 3 thorough), comparison spellings with -0 / missing spaces / parenthesised zero, destructor and case chains, all declaration forms, and the repository's own .sc files. Only texts the real parser accepts are used; the tree is obtained by parsing. For every (width, indent) in 1..60+{70..200} x {0,1,2,4,8} (quick) / 1..200 x 0..8 (thorough; the depth-3 texts use the quick set) the program is printed by the repository's printer; every distinct rendering is re-parsed: the tree must be equal (spans ignored) and printing again must give the same text. A slice goes through the real `scc fmt --inplace`. Distinct = distinct accepted source texts.".into(),
+                rule: "G-TEXT: every term form (literals incl. negative, variable, 5 operators, 6 comparisons in two-operand / zero-right / zero-left form, let, call, constructor, case with 0..3 clauses, destructor with/without type arguments and arguments, cocase with 0..2 clauses, label, goto, exit, print, println, parentheses) nested in every operand slot of every term form (depth 2 quick, depth 3 thorough), comparison spellings with -0 / missing spaces / parenthesised zero, destructor and case chains, all declaration forms, and the repository's own .sc files. Only texts the real parser accepts are used; the tree is obtained by parsing. For every (width, indent) in 1..60+{70..200} x {0,1,2,4,8} (quick) / 1..200 x 0..8 (thorough; the depth-3 texts use the quick set) the program is printed by the repository's printer; every distinct rendering is re-parsed: the tree must be equal (spans ignored) and printing again must give the same text. A slice goes through the real `scc fmt --inplace`. Distinct = distinct accepted source texts. Argument lists of length one are forms of their own (call1, ctor1, dtor1); the inner term of every depth-2 text is also wrapped in 1..3 pairs of parentheses; an identifier-shape family writes each of 8 classes of names (variables, covariables/labels, definitions, destructors, declaration parameters, types, type parameters, constructors) in 9 shapes the lexer admits (camel case, underscores inside / trailing / repeated, digits, keyword prefixes), one class at a time and all together.".into(),
                 assumptions: vec!["tree equality is the repository's derived PartialEq with source positions ignored".into()],
             };
             finish(&meta, tier, started, rep, Map::new())
@@ -374,7 +374,7 @@ pub fn run_check(id: &str, tier: Tier) -> i32 {
             let meta = CheckMeta {
                 property: "C17",
                 level: "model_checking",
-                rule: "three owned sources of nondeterminism, each enumerated exhaustively within its bound. History: for every sequence of <= 2 (quick) / <= 3 (thorough) earlier compilations over a 12-program alphabet (8 programs over a common prelude and 4 conflicting namesakes: same type, constructor, destructor and definition names with different order, arity or meaning), run in a fresh child process, the target (each of the 12) is compiled afterwards and every printable stage (Core, focused, shrunk, linearized, three assemblies) is compared with the fresh-process result after renumbering generated label suffixes in order of first occurrence. Hash seeds: an LD_PRELOAD shim makes getrandom() a function of VERIF_HASH_SEED; for seeds 0..15 (quick) / 0..255 (thorough) x a corpus (repository examples, testsuite programs, the history programs, a program with ten type instances) fresh processes must produce byte-identical output for every stage. Environment: the real scc subcommands compile/focus/shrink/linearize/codegen under 7 environments (cleared environment, TERM, COLUMNS, NO_COLOR, LANG/LC_ALL, another working directory): the text files written must be byte-identical. States = (history | seed | environment, stage) pairs; transitions = compilations.".into(),
+                rule: "three owned sources of nondeterminism, each enumerated exhaustively within its bound. History: for every sequence of <= 2 (quick) / <= 3 (thorough) earlier compilations over a 12-program alphabet (8 programs over a common prelude and 4 conflicting namesakes: same type, constructor, destructor and definition names with different order, arity or meaning), run in a fresh child process, the target (each of the 12) is compiled afterwards and every printable stage (Core, focused, shrunk, linearized, three assemblies) is compared with the fresh-process result after renumbering generated label suffixes in order of first occurrence. Hash seeds: an LD_PRELOAD shim makes getrandom() a function of VERIF_HASH_SEED; for seeds 0..15 (quick) / 0..255 (thorough) x a corpus (repository examples, testsuite programs, the history programs, a program with ten type instances) fresh processes must produce byte-identical output for every stage. Environment: the real scc subcommands compile/focus/shrink/linearize/codegen under 7 environments (cleared environment, TERM, COLUMNS, NO_COLOR, LANG/LC_ALL, another working directory): the text files written must be byte-identical. States = (history | seed | environment, stage) pairs; transitions = compilations. Additions: the seed corpus contains 30 programs whose user names lie in the generated namespaces (x<n>, a<n>, with gaps); a tool route runs `scc codegen` for 7 shapes of source file name x 2 backends with stand-ins for yasm/as/gcc on PATH that log their arguments and require every input file to exist (fresh output directory); and the compiler's session object is explored directly: every sequence of <= 3 (quick) / <= 4 (thorough) queries (parsed, checked, compiled, uniquified, focused, shrunk, linearized) x 2 (3) source files — conflicting namesakes — against ONE driver::Driver, each answer compared with the answer of a fresh driver to that query alone.".into(),
                 assumptions: vec!["Rust's std obtains its hash keys through the libc getrandom symbol (the shim's effect is visible: before the instance-order fix different seeds gave different outputs)".into()],
             };
             finish(&meta, tier, started, rep, Map::new())
@@ -384,7 +384,7 @@ pub fn run_check(id: &str, tier: Tier) -> i32 {
             let meta = CheckMeta {
                 property: "C18",
                 level: "exploration",
-                rule: "(i) every token sequence of length <= 3 (quick) / <= 4 (thorough) over a 58-token alphabet of the lexer (symbols, keywords, names, literals incl. 2^63, comment, whitespace), bare and after two valid prefixes; every string of <= 2 / <= 3 characters over printable ASCII plus multi-byte characters, bare and inside a definition body; (ii) every single-token deletion, and replacement by / insertion of each alphabet token, at every position of a corpus (repository examples, testsuite files incl. the rejected ones, an all-forms program, a program with twin types), and every identifier occurrence replaced by every other identifier of the same program; (iii) boundary literals in five placements; (iv) nesting depth up to 64 (256 thorough) of eleven nestable constructs; (v) entry-point shapes (no main, 0..7 parameters, non-integer parameters/results, duplicate main). Parsing and checking must return, and every error they return is rendered against the source text the way scc reports it (Driver error -> miette report -> text) without a panic; accepted programs with a valid entry point must pass translation, focusing, shrinking, linearization and three code generators without a panic other than the capacity assertions. A slice (all single bytes bare and inside a body, invalid UTF-8, BOM, empty file) goes through the real scc binary (check, compile): no exit status 101, no 'panicked at', no signal. Non-trivial/distinct = distinct input texts.".into(),
+                rule: "(i) every token sequence of length <= 3 (quick) / <= 4 (thorough) over a 58-token alphabet of the lexer (symbols, keywords, names, literals incl. 2^63, comment, whitespace), bare and after two valid prefixes; every string of <= 2 / <= 3 characters over printable ASCII plus multi-byte characters, bare and inside a definition body; (ii) every single-token deletion, and replacement by / insertion of each alphabet token, at every position of a corpus (repository examples, testsuite files incl. the rejected ones, an all-forms program, a program with twin types), and every identifier occurrence replaced by every other identifier of the same program; (iii) boundary literals in five placements; (iv) nesting depth up to 64 (256 thorough) of eleven nestable constructs; (v) entry-point shapes (no main, 0..7 parameters, non-integer parameters/results, duplicate main). Parsing and checking must return, and every error they return is rendered against the source text the way scc reports it (Driver error -> miette report -> text) without a panic; accepted programs with a valid entry point must pass translation, focusing, shrinking, linearization and three code generators without a panic other than the capacity assertions. A slice (all single bytes bare and inside a body, invalid UTF-8, BOM, empty file) goes through the real scc binary (check, compile): no exit status 101, no 'panicked at', no signal. Non-trivial/distinct = distinct input texts. (vi) every program of the Fun families (the well-typed programs the other properties run) goes through all stages and code generators as well.".into(),
                 assumptions: vec!["workers run on a 1 GiB stack; stack exhaustion is outside the property".into()],
             };
             finish(&meta, tier, started, rep, Map::new())
